@@ -399,6 +399,13 @@ def main(mod, argv=None) -> int:
     with open(os.path.join(EVIDENCE_DIR, f"{mod.ID}.json"), "w") as f:
         json.dump(evidence, f, indent=1, default=str)
         f.write("\n")
+    if args.tier == "thorough" and not getattr(args, "runs", None):
+        # the last full thorough run is kept next to the (per run rewritten) evidence file
+        tdir = os.path.join(ROOT, "evidence_thorough")
+        os.makedirs(tdir, exist_ok=True)
+        with open(os.path.join(tdir, f"{mod.ID}.json"), "w") as f:
+            json.dump(evidence, f, indent=1, default=str)
+            f.write("\n")
 
     for k, c in known_hits:
         print(f"KNOWN-FINDING: property={mod.ID} {k['what']} (observed {c}x)")
